@@ -357,8 +357,10 @@ impl SharedRateLimiter {
                 // Try again after waiting
                 let mut state = self.state.lock().unwrap();
                 match state.try_acquire() {
-                    Ok(additional_wait) => Ok(wait_duration + additional_wait),
-                    Err(_) => Err(()), // Timeout exceeded
+                    // Only a zero wait means a permit was actually taken
+                    Ok(Duration::ZERO) => Ok(wait_duration),
+                    // Still no permit after waiting: reject instead of admitting without one
+                    Ok(_) | Err(_) => Err(()),
                 }
             }
             Err(_) => {
